@@ -19,6 +19,25 @@ CHECKS = {
          'time source = scheduler clock; 10 ms resolution exercised with deadlines that are not exact decimal multiples.'),
 }
 
+_STACK_TECH = ('TLC exhaustive check of code-shaped CallStack.tla (per-call sink stack, timeout sink, open chaining, pool '
+               'queue, serial/mux transports) + real Thrift/ThriftMux clients built by the public builders run over a simulated '
+               'network under a virtual-time gevent loop; recorded traces validated by TLC against CallAbsTrace')
+_STACK_NOTE = ('Trusted: SimNet as TCP stand-in, peers with their own codecs, virtual loop faithful to gevent; TLC bounds '
+               '(3 calls, 3-4 ticks, pool of 1, queue of 1); requests attributed to calls by a unique argument.')
+CHECKS['C01'] = dict(engine='stack', category='model_checking', design_ref='DESIGN.md 5/C01', technique=_STACK_TECH, note=_STACK_NOTE,
+  text='TLC enumerates every order of issue (before/after open), reply, late reply, I/O fault, timer expiry and pool hand-over '
+       'for 3 calls on the code-shaped model and checks exactly-once / not-early / on-time / completes; the same clauses are '
+       'evaluated by TLC on every step of thousands of recorded executions of the real client stacks (seeded scenarios placing '
+       'the deadline at each hop).')
+CHECKS['C02'] = dict(engine='stack', category='model_checking', design_ref='DESIGN.md 5/C02', technique=_STACK_TECH, note=_STACK_NOTE,
+  text='Every request decoded at a simulated server must equal (method, unique argument) of an issued call and every value '
+       'delivered to a caller must be the echo of its own argument; TLC validates this on every recorded execution of the real '
+       'serial and multiplexed stacks with delayed, reordered, dropped and late replies, timeouts and connection faults.')
+CHECKS['C12'] = dict(engine='stack', category='model_checking', design_ref='DESIGN.md 5/C12', technique=_STACK_TECH, note=_STACK_NOTE,
+  text='On the single global event order (caller completions and bytes at the peers) TLC checks that no request is decoded at a '
+       'server after its caller got TimeoutError and that a discard naming the tag reaches the peer for requests already written '
+       'to a still-open multiplexed connection; the code-shaped model places the deadline at every hop exhaustively.')
+
 PENDING = {}
 
 ALL = ['C%02d' % i for i in range(1, 21)]
